@@ -75,8 +75,9 @@ impl OperationControl for BackReference {
             }
             Box::new(std::iter::once(position + l))
         } else {
-            // We don't know the backref yet
-            Box::new(std::iter::empty())
+            // the group has not participated in the match: the back-reference
+            // matches the empty string
+            Box::new(std::iter::once(position))
         }
     }
 }
